@@ -217,3 +217,115 @@ Proof. apply (sissuperset_spec rdata rd_eqb rd_eqb_refl rd_eqb_sym rd_eqb_trans)
 Theorem disjoint_spec s o :
   sisdisjoint rd_eqb s o = true <-> (forall x, rmem x s = true -> rmem x o = true -> False).
 Proof. apply (sisdisjoint_spec rdata rd_eqb rd_eqb_refl rd_eqb_sym rd_eqb_trans). Qed.
+
+(* ---------- single-element methods ---------- *)
+
+(* Set(items) / update(iterable): duplicates collapse, also inside the argument *)
+Theorem sof_list_spec l x : ND (sof_list rd_eqb l) /\ rmem x (sof_list rd_eqb l) = rmem x l.
+Proof.
+  split; [apply ND_supdate, ND_nil|].
+  unfold sof_list, rmem. rewrite (mem_supdate rdata rd_eqb rd_eqb_sym rd_eqb_trans). reflexivity.
+Qed.
+
+Theorem supdate_spec s l x :
+  ND s -> ND (supdate rd_eqb s l) /\ rmem x (supdate rd_eqb s l) = rmem x s || rmem x l.
+Proof.
+  intros H. split; [apply ND_supdate, H|].
+  apply (mem_supdate rdata rd_eqb rd_eqb_sym rd_eqb_trans).
+Qed.
+
+(* remove: ValueError (and no change) when absent; otherwise exactly the equal member goes,
+   the others keep their order *)
+Theorem sremove_spec s x :
+  ND s ->
+  (rmem x s = false -> sremove rd_eqb x s = Lib eValueError) /\
+  (rmem x s = true ->
+     sremove rd_eqb x s = Ok (filter (fun k => negb (rd_eqb k x)) s) /\
+     forall y, rmem y (filter (fun k => negb (rd_eqb k x)) s) = rmem y s && negb (rd_eqb y x)).
+Proof.
+  intros H. unfold sremove, rmem. split; intros E; rewrite E; [reflexivity|].
+  rewrite (sdel_filter rdata rd_eqb rd_eqb_sym rd_eqb_trans) by exact H.
+  split; [reflexivity|]. intros y.
+  apply (mem_filter rdata rd_eqb _ y s (neq_compat rdata rd_eqb rd_eqb_sym rd_eqb_trans x)).
+Qed.
+
+Theorem sdiscard_spec s x y :
+  ND s -> rmem y (sdiscard rd_eqb x s) = rmem y s && negb (rd_eqb y x).
+Proof. intros H. apply (mem_sdel rdata rd_eqb rd_eqb_sym rd_eqb_trans), H. Qed.
+
+(* pop: the newest member; KeyError exactly on the empty set *)
+Theorem spop_spec (s : list rdata) :
+  (s = [] -> spop s = Internal iKeyError) /\
+  (forall x s', spop s = Ok (x, s') -> s = s' ++ [x]) /\
+  (s <> [] -> exists x s', spop s = Ok (x, s')).
+Proof.
+  split; [intros ->; reflexivity|]. split; [intros x s'; apply spop_snoc|].
+  induction s as [|k r IH]; [congruence|]. intros _. cbn.
+  destruct r as [|k2 r2]; [eauto|].
+  destruct IH as (x & s' & E); [discriminate|]. rewrite E. eauto.
+Qed.
+
+(* s[i] is the i-th member in insertion order *)
+Theorem sget_spec (s : list rdata) i :
+  0 <= i -> sget s i = match nth_error s (Z.to_nat i) with Some x => Ok x | None => Internal iStopIteration end.
+Proof. intros H. unfold sget. destruct (Z.ltb_spec i 0); [lia|reflexivity]. Qed.
+
+(* ---------- the algebra at the level of the machine: for every reachable state the
+   hypotheses of the algebra (duplicate-free operands, aliasing only of a register with itself)
+   hold by the invariant ---------- *)
+
+Theorem set_machine_inplace ops w a r o s os :
+  let st := sexec [] ops in
+  nth_error st r = Some s -> nth_error st o = Some os -> inplace_alg w = Some a ->
+  exists s', sstep st (SInpl w r (Some o)) = (set_nth st r s', N) /\
+    ND s' /\ (forall x, rmem x s' = alg_bool a (rmem x s) (rmem x os)) /\
+    (r <> o -> s' = alg_order rdata rd_eqb a s os).
+Proof.
+  cbv zeta. intros Es Eo Ea.
+  pose proof (set_machine_nodup ops) as Hnd.
+  assert (Hs : ND s) by (eapply Forall_nth_error; eassumption).
+  assert (Ho : ND os) by (eapply Forall_nth_error; eassumption).
+  assert (Hsame : Nat.eqb r o = true -> os = s) by (intros E; eapply same_reg; eassumption).
+  cbn [sstep]. rewrite Es, Eo, Ea. eexists. split; [reflexivity|].
+  split; [apply ND_salg; assumption|]. split.
+  - intros x. apply set_alg_mem; assumption.
+  - intros Hne. apply Nat.eqb_neq in Hne. rewrite Hne. apply set_alg_order; assumption.
+Qed.
+
+Theorem set_machine_copying ops w d r o s os st' :
+  let st := sexec [] ops in
+  nth_error st r = Some s -> nth_error st o = Some os ->
+  assign st d (salg (func_alg w) s os false) = Some st' ->
+  sstep st (SFunc w d r (Some o)) = (st', N) /\
+  ND (salg (func_alg w) s os false) /\
+  (forall x, rmem x (salg (func_alg w) s os false) = alg_bool (func_alg w) (rmem x s) (rmem x os)) /\
+  salg (func_alg w) s os false = alg_order rdata rd_eqb (func_alg w) s os.
+Proof.
+  cbv zeta. intros Es Eo Ed.
+  pose proof (set_machine_nodup ops) as Hnd.
+  assert (Hs : ND s) by (eapply Forall_nth_error; eassumption).
+  assert (Ho : ND os) by (eapply Forall_nth_error; eassumption).
+  cbn [sstep]. rewrite Es, Eo. unfold sclone. rewrite Ed.
+  split; [reflexivity|]. split; [apply ND_salg; try assumption; discriminate|]. split.
+  - intros x. apply set_alg_mem; try assumption. discriminate.
+  - apply set_alg_order; assumption.
+Qed.
+
+Theorem set_machine_pred ops w r o s os :
+  let st := sexec [] ops in
+  nth_error st r = Some s -> nth_error st o = Some os ->
+  sstep st (SPred w r (Some o)) = (st, ob (spred w s os)) /\
+  (spred PEq s os = true <-> forall x, rmem x s = rmem x os) /\
+  (spred PSubset s os = true <-> forall x, rmem x s = true -> rmem x os = true) /\
+  (spred PSuperset s os = true <-> forall x, rmem x os = true -> rmem x s = true) /\
+  (spred PDisjoint s os = true <-> forall x, rmem x s = true -> rmem x os = true -> False) /\
+  spred PNe s os = negb (spred PEq s os).
+Proof.
+  cbv zeta. intros Es Eo.
+  pose proof (set_machine_nodup ops) as Hnd.
+  assert (Hs : ND s) by (eapply Forall_nth_error; eassumption).
+  assert (Ho : ND os) by (eapply Forall_nth_error; eassumption).
+  cbn [sstep]. rewrite Es, Eo. split; [reflexivity|].
+  split; [apply set_eq_ignores_order; assumption|].
+  split; [apply subset_spec|]. split; [apply superset_spec|]. split; [apply disjoint_spec|reflexivity].
+Qed.
